@@ -12,6 +12,7 @@ pub mod crash;
 pub mod entries;
 pub mod c14;
 pub mod c15;
+pub mod c16;
 pub mod c19;
 
 use crate::engine::{Run, Verdict};
@@ -33,6 +34,7 @@ pub fn registry(id: &str) -> Option<(RunFn, ReplayFn)> {
         "C13" => Some((c13::run, c13::replay)),
         "C14" => Some((c14::run, c14::replay)),
         "C15" => Some((c15::run, c15::replay)),
+        "C16" => Some((c16::run, c16::replay)),
         "C19" => Some((c19::run, c19::replay)),
         _ => None,
     }
